@@ -191,3 +191,21 @@ func VerifAppendFloatGrid() {
 	vAssert(rel <= 2*math.Pow(10, float64(1-digits)), "appendfloat-value-off")
 	vReach("grid")
 }
+
+// VerifParseFloatHistory (C20): the value ParseFloat returns for a literal does not depend on the
+// literals parsed before it in the same process (slow paths with large exponents first), and no
+// package-level table is written (global write barrier).
+func VerifParseFloatHistory() {
+	big := []string{"1.5e300", "993349238352373e23", "1e-300", "0.00000000000000000000000000000000000001", "123456789012345678901234567890", "1e40"}
+	probe := []string{"3e-23", "3e-26", "1.1e-40", "7e22", "5e-1", "2.5e23", "1e-22"}
+	b := []byte(probe[vRange("probe", 0, len(probe)-1)])
+	first, n1 := ParseFloat(b)
+	k := vRange("k", 1, 2)
+	for i := 0; i < k; i++ {
+		a := []byte(big[vRange("big"+string(rune('0'+i)), 0, len(big)-1)])
+		ParseFloat(a)
+	}
+	again, n2 := ParseFloat(b)
+	vAssert(n1 == n2 && math.Float64bits(first) == math.Float64bits(again), "parsefloat-result-depends-on-history")
+	vReach("history")
+}
